@@ -333,6 +333,8 @@ class Endpoint:
         modified_params = previously_modified_params or set()
         used_python_names: dict[PythonIdentifier, tuple[oai.ParameterLocation, Property]] = {}
         reserved_names = ["client", "url"]
+        if self.bodies:
+            reserved_names.append("body")
         for parameter in self.iter_all_parameters():
             location, prop = parameter
 
@@ -472,6 +474,8 @@ class Endpoint:
                 parameters,
             )
 
+        if result.bodies:  # A parameter must not take the name of the `body` argument
+            return result._check_parameters_for_conflicts(config=config), schemas, parameters
         return result, schemas, parameters
 
     def response_type(self) -> str:
